@@ -13,7 +13,7 @@ CODE_FLAGS = dict(INTENDED)     # after the four fix: commits the code follows t
 
 INVS = ["AtMostOneOutcome", "ExactlyOneAtQuiescence", "OutcomeKind", "NoResidue", "BoundedTime", "ResponseIntegrity",
         "RequestIntegrity", "MoreFollows", "SeqMatchesIndex", "WindowBound", "WindowRange", "ClientRxIsPrefix"]
-PROPS = ["SilenceAfterOutcome", "AbortOnlyAfterAllRetries", "NoDoubleIndicationWhileBusy"]
+PROPS = ["SilenceAfterOutcome", "AbortOnlyAfterAllRetries", "NoDoubleIndicationWhileBusy", "WindowRespectsAck"]
 
 
 def detect_code_flags():
@@ -23,11 +23,11 @@ def detect_code_flags():
 
 
 def consts(nq, nr, rk="ack", pwc=2, pws=2, retries=1, tapdu=6, tseg=1, tapp=3, app_delay=0, delay_by=1, seqmod=256,
-           maxdrop=0, maxdup=0, maxdelay=0, maxnow=1000000, flags=None):
+           maxdrop=0, maxdup=0, maxdelay=0, maxnow=1000000, flags=None, maxshrink=0):
     f = dict(INTENDED if flags is None else flags)
     d = dict(NQ=nq, NR=nr, RK='"%s"' % rk, PWC=pwc, PWS=pws, Retries=retries, Tapdu=tapdu, Tseg=tseg, Tapp=tapp,
              AppDelay=app_delay, DelayBy=delay_by, SeqMod=seqmod, MaxDrop=maxdrop, MaxDup=maxdup, MaxDelay=maxdelay,
-             MaxNow=maxnow)
+             MaxNow=maxnow, MaxShrink=maxshrink)
     d.update(f)
     return d
 
@@ -110,6 +110,8 @@ def record(rc, faults=None, order="fifo", rng=None, script=None, silence_from=No
         d.update(residue_counts(rig))
         return d
     rig.residue = residue
+    if rc.get("pre"):
+        rig.pre_exchange()
     hang = None
     stopped = None
     try:
@@ -134,7 +136,7 @@ def _validate_group(args):
     key, flags, traces, wd = args
     nq, nr, rk, pwc, pws, retries, tapdu, tseg, tapp, app_delay, delay_by = key
     c = consts(nq, nr, rk, pwc, pws, retries, tapdu, tseg, tapp, app_delay, delay_by, flags=flags,
-               maxdrop=99, maxdup=99, maxdelay=99)
+               maxdrop=99, maxdup=99, maxdelay=99, maxshrink=99)
     tf = os.path.join(wd, "traces_%s.ndjson" % abs(hash(key)))
     with open(tf, "w") as f:
         for t in traces:
